@@ -183,6 +183,9 @@ func DecryptPrivKey(data []byte, password string) (crypto.PrivateKey, error) {
 			return nil, err
 		}
 		nonceSize := aesGCM.NonceSize()
+		if len(data) < nonceSize {
+			return nil, fmt.Errorf("encrypted key is too short: %d bytes, need at least the %d bytes nonce", len(data), nonceSize)
+		}
 
 		nonce, ciphertext := data[:nonceSize], data[nonceSize:]
 		plain, err = aesGCM.Open(nil, nonce, ciphertext, nil)
